@@ -33,8 +33,7 @@ type c17Case struct {
 	Max    F64   `json:"max,omitempty"`
 	Levels []int `json:"levels,omitempty"`
 	Hist   int   `json:"hist,omitempty"` // history on the scale object before the observed calls
-	// options for Nice and for the calls after it; nil = the same as O.  (Cases whose O reaches
-	// levels with an overflowing spacing use level-free options here.)
+	// options for Nice and for the calls after it; nil = the same as O
 	NO *c17Opts `json:"no,omitempty"`
 }
 
@@ -327,7 +326,34 @@ func c17LinearCase(rng *rand.Rand) c17Case {
 		eb = 10
 	}
 	var mn, mx float64
-	switch rng.Intn(5) {
+	tickDelta := false
+	switch rng.Intn(6) {
+	case 5: // ends at a tick +- delta, delta on a log grid 1e-13..1e-6 of the width (the code's slack is
+		// 1e-10 of the width), both sides, both ends, |centre|/width about 1, 30 or 1e3
+		ratio := []float64{1, 30, 950}[rng.Intn(3)]
+		j := rng.Intn(7) - 3
+		u := math.Pow(float64(eb), float64(j))
+		if base == 0 && rng.Intn(2) == 0 {
+			u *= 5
+		}
+		m := 1 + rng.Intn(15)
+		a := int(ratio * float64(m) * (0.45 + 0.5*rng.Float64()))
+		if rng.Intn(2) == 0 {
+			a = -a - m
+		}
+		w := float64(m) * u
+		d := func() float64 {
+			x := w * math.Pow(10, -13+7*rng.Float64())
+			if rng.Intn(2) == 0 {
+				x = -x
+			}
+			if rng.Intn(6) == 0 {
+				x = 0
+			}
+			return x
+		}
+		mn, mx = float64(a)*u+d(), float64(a+m)*u+d()
+		tickDelta = true
 	case 0: // ends on small integers
 		mn = float64(rng.Intn(41) - 20)
 		mx = mn + float64(1+rng.Intn(40))
@@ -365,6 +391,10 @@ func c17LinearCase(rng *rand.Rand) c17Case {
 	}
 	nat := 2 * int(math.Round(math.Log(mx-mn)/math.Log(float64(eb))))
 	c := c17Case{K: 1, Base: base, O: c17Opt(rng, nat, 6)}
+	if tickDelta && rng.Intn(4) != 0 {
+		// enough ticks allowed that the chosen level has the two ends (nearly) on ticks
+		c.O.Max = 16 + rng.Intn(5)
+	}
 	for lev := nat - 2; lev <= nat+3; lev++ {
 		c.Levels = append(c.Levels, lev)
 	}
@@ -389,11 +419,16 @@ func c17LinearCase(rng *rand.Rand) c17Case {
 	}
 	if rng.Intn(25) == 0 && c.Base != 1 && c.Base >= 0 {
 		// level limits (and per-level observations) around the level where the spacing eb^(l/2)
-		// (x5) overflows float64; Nice keeps level-free options (finding hI-c17-2)
+		// (x5) overflows float64 (findings hI-c17-1, hI-c17-2)
 		ov := 2 * int(math.Ceil(1024*math.Ln2/math.Log(float64(eb))))
 		c.O.MinLevel = ov - 5 + rng.Intn(9)
 		c.O.MaxLevel = c.O.MinLevel + rng.Intn(4)
-		c.NO = &c17Opts{Max: c.O.Max}
+		// Nice: only levels whose spacing has overflowed.  (At the last levels BEFORE that the
+		// spacing is finite but the niced domain [-spacing, spacing] has an infinite width:
+		// finding hI-c17-4, outside the property's domains.)
+		if c.O.MinLevel < ov {
+			c.NO = &c17Opts{Max: c.O.Max, MinLevel: ov, MaxLevel: ov + rng.Intn(3)}
+		}
 		if c.Levels != nil {
 			c.Levels = []int{ov - 3, ov - 2, ov - 1, ov, ov + 1, ov + 4}
 		}
@@ -484,11 +519,10 @@ func c17LogCase(rng *rand.Rand) c17Case {
 	}
 	if rng.Intn(20) == 0 {
 		// level limits (and per-level observations) around the level where the effective base
-		// overflows float64; Nice keeps level-free options (finding hI-c17-2)
+		// overflows float64 (findings hI-c17-1, hI-c17-2)
 		ov := int(math.Ceil(math.Log2(1024 * math.Ln2 / math.Log(float64(b)))))
 		c.O.MinLevel = ov - 2 + rng.Intn(4)
 		c.O.MaxLevel = c.O.MinLevel + rng.Intn(3)
-		c.NO = &c17Opts{Max: c.O.Max}
 		if c.Levels != nil {
 			c.Levels = []int{ov - 2, ov - 1, ov, ov + 1, ov + 3}
 		}
